@@ -72,12 +72,17 @@ def types_equal(a, b, ignore_ws=False):
 
 def default_equal(exp, got, as_code=False):
     """-> None if equal, else aspect suffix. as_code: both are expression text (return defaults): compare as ASTs."""
-    if as_code and isinstance(exp, str) and isinstance(got, str):
-        try:
-            if ast_dump_expr(strip_code(exp)) == ast_dump_expr(strip_code(got)):
-                return None
-        except SyntaxError:
-            pass
+    if as_code:
+        # a return default is an expression: the value 0 and the source text "0" are the same thing to return
+        # (doctrans stores a constant as the value, anything else as text); None means "no default" and stays apart
+        etxt = exp if isinstance(exp, str) else (repr(exp) if isinstance(exp, (bool, int, float)) else None)
+        gtxt = got if isinstance(got, str) else (repr(got) if isinstance(got, (bool, int, float)) else None)
+        if etxt is not None and gtxt is not None and (isinstance(exp, str) or isinstance(got, str)):
+            try:
+                if ast_dump_expr(strip_code(etxt)) == ast_dump_expr(strip_code(gtxt)):
+                    return None
+            except (SyntaxError, IndexError):
+                pass
     if exp is None:
         return None if (got in NONE_ALIASES if isinstance(got, (str, type(None))) else False) else "value:None->%s" % type(got).__name__
     if is_code(exp) or (isinstance(got, str) and is_code(got)):
